@@ -6,7 +6,7 @@ and facts from the shipped propka.cfg.
 import ast
 
 from sa import callgraph, absflow
-from sa.absflow import AbsInterp, TupleV, NONE, hull, run_function
+from sa.absflow import AbsInterp, TupleV, TableV, NONE, hull, run_function
 from sa.absint import AV, TOP, INF, const
 from sa.astutil import (facts_at, effective, call_name, calls_in, dotted, norm, walk_no_nested, last_attr,
                         func_params, fact_texts, names_in, try_fold)
@@ -67,14 +67,19 @@ class Kernel:
                 if isinstance(v, (int, float)) and tail == fld:
                     return const(float(v))
                 kind = self.cfg.fields[fld][0]
-                if kind == 'numdict' and '[' in tail and v:
-                    return AV(min(v.values()), max(v.values()))
-                if kind == 'listdict' and '[' in tail and v:
+                row = None
+                if kind == 'numdict' and v:
+                    row = AV(min(v.values()), max(v.values()))
+                if kind == 'listdict' and v:
                     rows = list(v.values())
                     n = len(rows[0])
                     if all(len(r) == n for r in rows):
-                        return TupleV([AV(min(r[i] for r in rows), max(r[i] for r in rows))
-                                       for i in range(n)])
+                        row = TupleV([AV(min(r[i] for r in rows), max(r[i] for r in rows))
+                                      for i in range(n)])
+                if row is not None and '[' in tail:
+                    return row
+                if row is not None and tail == fld:
+                    return TableV(row)      # the table itself, bound to a local and subscripted later
         return None
 
     def value(self, fid, args, kwargs=None):
